@@ -418,3 +418,20 @@ func SortedKeys[V any](m map[string]V) []string {
 	sort.Strings(ks)
 	return ks
 }
+
+// Len returns the number of events recorded so far in this cycle.
+func (r *RecCache) Len() int {
+	r.mu.Lock()
+	defer r.mu.Unlock()
+	return len(r.Events)
+}
+
+// Since returns a copy of the events recorded from index i on.
+func (r *RecCache) Since(i int) []Event {
+	r.mu.Lock()
+	defer r.mu.Unlock()
+	if i > len(r.Events) {
+		i = len(r.Events)
+	}
+	return append([]Event(nil), r.Events[i:]...)
+}
